@@ -11,6 +11,32 @@ let z_of_int n = if n = 0 then Z0 else if n > 0 then Zpos (pos_of_int n) else Zn
 let rec int_of_pos = function XH -> 1 | XO p -> 2 * int_of_pos p | XI p -> 2 * int_of_pos p + 1
 let int_of_n = function N0 -> 0 | Npos p -> int_of_pos p
 let int_of_z = function Z0 -> 0 | Zpos p -> int_of_pos p | Zneg p -> - (int_of_pos p)
+(* integers of any size (Go ints reach 2^63, OCaml ints stop at 2^62): decimal text <-> Z by Horner's rule in Z itself *)
+let z_of_decimal tok : z =
+  let neg = Stdlib.String.length tok > 0 && tok.[0] = '-' in
+  let ten = z_of_int 10 in
+  let acc = ref Z0 in
+  Stdlib.String.iteri (fun i c ->
+    if i = 0 && neg then () else begin
+      if c < '0' || c > '9' then failwith ("bad integer " ^ tok);
+      acc := Z.add (Z.mul !acc ten) (z_of_int (Stdlib.Char.code c - 48)) end) tok;
+  if neg then Z.opp !acc else !acc
+let decimal_of_z (x : z) =
+  match x with
+  | Z0 -> "0"
+  | _ ->
+    let neg = (match x with Zneg _ -> true | _ -> false) in
+    let ten = z_of_int 10 in
+    let cur = ref (if neg then Z.opp x else x) in
+    let digits = Stdlib.Buffer.create 20 in
+    while !cur <> Z0 do
+      let (q, r) = Z.div_eucl !cur ten in
+      Stdlib.Buffer.add_char digits (Stdlib.Char.chr (48 + int_of_z r));
+      cur := q
+    done;
+    let d = Stdlib.Buffer.contents digits in
+    let n = Stdlib.String.length d in
+    (if neg then "-" else "") ^ Stdlib.String.init n (fun i -> d.[n - 1 - i])
 
 let hexval c = match c with
   | '0'..'9' -> Char.code c - 48 | 'a'..'f' -> Char.code c - 87 | 'A'..'F' -> Char.code c - 55
@@ -60,14 +86,14 @@ let parse_line (s : Stdlib.String.t) : sx =
       let tok = String.sub s st (!pos - st) in
       if is_hex_tok tok then SB (bytes_of_hex tok 1)
       else if (tok.[0] = '-' && String.length tok > 1) || (tok.[0] >= '0' && tok.[0] <= '9')
-      then SI (z_of_int (int_of_string tok))
+      then SI (z_of_decimal tok)
       else SY (bytes_of_string tok)
     end in
   item ()
 
 let rec print_sx buf (x : sx) = match x with
   | SB l -> Buffer.add_char buf 'x'; Buffer.add_string buf (hex_of_bytes l)
-  | SI z -> Buffer.add_string buf (string_of_int (int_of_z z))
+  | SI z -> Buffer.add_string buf (decimal_of_z z)
   | SY l -> Buffer.add_string buf (string_of_bytes l)
   | SL l ->
       Buffer.add_char buf '(';
